@@ -1,6 +1,7 @@
 (* CasesText.v — correspondence and specification oracles for C11, C12, C13, C14 and C20. *)
 From Astro Require Import Base Text CalSpec DateModel TimeModel ApiModel InstantSpec CronModel FormatModel ParseModel PatternSpec RfcSpec
   Cases DateProofs WeekProofs ValueFields.
+From Astro Require CasesArith.
 
 Definition obs_text (r : res text) : obs := match r with Ok s => OOk [] [s] | Err _ => OErr 2 [] | Panic => OPanic end.
 Definition obs_date (r : res Z) : obs := obs_of (fun d => OOk [d] []) r.
@@ -181,6 +182,18 @@ Definition check_C14 (c : case) : Z :=
       let m := match t with 0 => parse_unsigned 255 s | 1 => parse_unsigned U32_MAX s | 2 => parse_unsigned U64_MAX s | _ => parse_signed I32_MIN I32_MAX s end in
       verdict (match m, c_out c with Some v, OOk [w] [] => v =? w | None, OErr 2 _ => true | _, _ => false end) true
   | _, _, _ => V_MALFORMED
+  end.
+
+(* ---------------------------------------------------------------- C08 (text entry points of Time)
+   Time::parse and Time::from_str are public ways to obtain a Time: their Ok must lie inside the day (valid_out 1),
+   and the model must agree in class; every other operation of the C08 stream goes to CasesArith.check_C08. *)
+Definition check_C08x (c : case) : Z :=
+  match c_op c, c_ints c, c_strs c with
+  | Op_parse, [1; now_year], [inp; pat] =>
+      verdict (obs_same_class (model_parse 1 now_year inp pat) (c_out c)) (valid_out 1 (c_out c))
+  | Op_fromstr, [1], [s] =>
+      verdict (obs_same_class (model_fromstr 1 s) (c_out c)) (valid_out 1 (c_out c))
+  | _, _, _ => CasesArith.check_C08 c
   end.
 
 (* ---------------------------------------------------------------- C20 *)
